@@ -16,19 +16,14 @@ func (v *Vue) evalVShow(ctx VueContext, n *html.Node) error {
 		return nil
 	}
 
-	// Evaluate the expression using the same approach as v-if
-	val, err := v.exprEval.Eval(vShowExpr, ctx.stack.EnvMap())
+	// Evaluate the expression exactly like v-if does (same normalisation and fallbacks)
+	visible, err := v.evalConditionExpr(ctx, vShowExpr)
 	if err != nil {
-		// Fall back to stack resolution for simple variable references
-		var ok bool
-		val, ok = ctx.stack.Resolve(vShowExpr)
-		if !ok {
-			val = false
-		}
+		return err
 	}
 
-	// Set or remove display:none based on condition
-	if !helpers.IsTruthy(val) {
+	// Set display:none when the condition is falsy
+	if !visible {
 		v.setStyleProperty(n, "display", "none")
 	}
 
